@@ -10,6 +10,8 @@ for line in open(os.path.join(res, "MAP.txt")):
     if len(parts) < 2:
         continue
     run, seed = parts[0], parts[1]
+    if seed.startswith("THOROUGH"):
+        continue
     how = " ".join(parts[2:]) or "vp run --with-repo (patch applied to the run's snapshot of /repo), quick tier"
     lf = os.path.join(res, run + ".log")
     if not os.path.exists(lf):
